@@ -6,6 +6,7 @@ from hypothesis import strategies as st
 
 from harness.loader import load
 from harness.runner import Part
+from harness import build as B
 from harness import relational as R
 from harness.refmodel import freeze
 
@@ -214,7 +215,7 @@ def run_table(case, ctx):
 
 
 def check_vector(ctx, vals, rev, na_last, name="nm"):
-    v = S.Vector(list(vals), name=name)
+    v = B.vector(vals, name=name)
     before = [freeze(x) for x in v]
     ctx.ev()
     out = v.sort_by(reverse=rev, na_last=na_last)
